@@ -27,6 +27,10 @@ def requests():
         Request(KP, fn=["stir::KeyParser::.*", "stir::assign_to_list"], enum=["stir::KeyArgument::type"], files=["/repo/src/buildblock/KeyParser.cxx"]),
         Request(IH, fn=["stir::Interfile.*Header::.*", "stir::MinimalInterfileHeader::.*", "stir::find_segment_sequence"], files=["/repo/src/IO/InterfileHeader.cxx"]),
         Request(IF, fn=["stir::read_interfile_.*", "stir::create_image_and_header_from", "stir::is_interfile_signature"], files=["/repo/src/IO/interfile.cxx"]),
+        Request("src/IO/InterfileHeaderSiemens.cxx", fn=["stir::Interfile.*::.*"], rec=["stir::Interfile.*", "stir::MinimalInterfileHeader"], files=["/repo/src/IO/InterfileHeaderSiemens.cxx"]),
+        Request("src/IO/InterfilePDFSHeaderSPECT.cxx", fn=["stir::Interfile.*::.*"], rec=["stir::InterfilePDFSHeaderSPECT"], files=["/repo/src/IO/InterfilePDFSHeaderSPECT.cxx"]),
+        Request(IF, fn=["stir::.*"], files=["/repo/src/IO/interfile.cxx"]),
+        Request(KP, fn=["stir::.*"], files=["/repo/src/buildblock/KeyParser.cxx"]),
     ]
 
 
@@ -350,6 +354,215 @@ def rule_f_lists_length_checked(ctx, hfns):
     return n
 
 
+def _lit(node):
+    l = [m.get("v") for m in node.walk() if m.k == "StringLiteral"]
+    return l[0] if l else None
+
+
+def rule_g_element_keys_survive_resizes(ctx, hfns, records):
+    """A key registered with the ADDRESS OF AN ELEMENT of a member vector (`add_key(k, &v[0])`) writes through a dangling pointer once
+    the vector has been reallocated.  For every such registration in a header class C and every function R of C or one of its bases
+    that resizes v when a header line is read (a keyword processor - constructors run before parsing): R registers the element key again
+    after the resize (itself or through a function that does), or C (or a base between) has taken R out of the parser:
+    `remove_key(K)` for the key K whose processor R is, followed by a registration of K without that processor."""
+    RULE = "C17.g-element-keys-survive-resizes"
+    from engine.cfg import CFG
+
+    bases = {}
+    for rc in records:
+        bases.setdefault(rc.get("qn"), [b.get("qn") if isinstance(b, dict) else b for b in rc.get("bases", [])])
+
+    def ancestors(c):
+        out, todo = [], [c]
+        while todo:
+            x = todo.pop()
+            for b in bases.get(x, []):
+                if b not in out:
+                    out.append(b)
+                    todo.append(b)
+        return out
+
+    fns = [f for f in hfns if f.body is not None and f.cls]
+    regs = []  # (function, call, vector member)
+    procs = {}  # processor qualified name -> [(key, registering function)]
+    for f in fns:
+        for c in f.calls():
+            if (c.callee or "").split("::")[-1] != "add_key":
+                continue
+            args = c.call_args()
+            for a in args[1:]:
+                a = a.strip()
+                if a.k == "UnaryOperator" and a.op == "&" and a.c:
+                    t = a.c[0].strip()
+                    if (t.k == "CXXOperatorCallExpr" and t.op == "[]" or t.k == "ArraySubscriptExpr") and t.c and t.c[0].strip().k == "MemberExpr" and t.c[0].strip().c and t.c[0].strip().c[0].strip().k == "CXXThisExpr" and "vector<" in (t.c[0].strip().type or ""):
+                        regs.append((f, c, t.c[0].strip().get("n")))
+            if len(args) >= 4:
+                for m in args[2].walk():
+                    if m.k == "DeclRefExpr" and m.get("dk") == "function":
+                        procs.setdefault(m.d["fn"]["qn"], []).append((_lit(args[0]), f))
+    n = 0
+    for f, c, v in regs:
+        fam = [f.cls] + ancestors(f.cls)
+        resizers = [g for g in fns if g.cls in fam and not g.is_ctor and any(x.k == "CXXMemberCallExpr" and (x.callee or "").split("::")[-1] in ("resize", "assign", "push_back", "clear") and x.c and key(x.c[0].strip()) == "this." + v for x in g.walk())]
+        if not resizers:
+            ctx.ob(RULE, f.qn, "&%s[..]" % v, True, c.where(), "no function that runs while a header is parsed resizes %s" % v)
+            n += 1
+            continue
+        for g in resizers:
+            ok, det = False, ""
+            # A. re-registration after the resize
+            rereg = {x.i for x in g.calls() if (x.callee or "") == f.qn or ((x.callee or "").split("::")[-1] == "add_key" and any(key(a.strip()) == key(c.call_args()[-1].strip()) for a in x.call_args()))}
+            rs = [x for x in g.walk() if x.k == "CXXMemberCallExpr" and (x.callee or "").split("::")[-1] in ("resize", "assign", "push_back", "clear") and x.c and key(x.c[0].strip()) == "this." + v]
+            if rereg and g.cfg_raw:
+                cfg = CFG(g)
+                # a re-registration may stand under the condition the original registration stands under (`version_of_keys ==
+                # "STIR3.0"`): when that is false there is no element key to go stale.  Anchor = the outermost such test.
+                guards = {key(a.c[0].strip()) for a in c.ancestors() if a.k == "IfStmt" and a.c}
+                guards |= {key(a.c[0].strip()) for h in fns if h.qn == f.qn for cc in h.calls() if cc.i == c.i for a in cc.ancestors() if a.k == "IfStmt" and a.c}
+                anchors = set()
+                for x in g.walk():
+                    if x.i not in rereg:
+                        continue
+                    a_ = x
+                    for anc in x.ancestors():
+                        if anc.k == "IfStmt" and anc.c and key(anc.c[0].strip()) in guards:
+                            a_ = anc.c[0]
+                        elif anc.k == "IfStmt":
+                            break
+                    anchors |= {y.i for y in a_.walk()} if a_ is not x else {x.i}
+                # calls of the registering function are anchors themselves (its own test is inside it)
+                if cfg.must_pass_before_exit([x for x in rs if x.i in cfg.pos], lambda x: x.i in anchors) is None:
+                    ok, det = True, "%s registers the key again after resizing %s" % (g.short, v)
+            # B. R is no longer reachable from the parser in C
+            if not ok:
+                keys = [k for k, _rf in procs.get(g.qn, [])]
+                chain = [h for h in fns if h.is_ctor and h.cls in [f.cls] + [a for a in ancestors(f.cls)] and h.cls not in ancestors(g.cls) and h.cls != g.cls]
+                for k in keys:
+                    for h in chain:
+                        rem = [x for x in h.calls() if (x.callee or "").split("::")[-1] == "remove_key" and _lit(x) == k]
+                        add = [x for x in h.calls() if (x.callee or "").split("::")[-1] == "add_key" and _lit(x.call_args()[0]) == k and len(x.call_args()) < 4]
+                        if rem and add:
+                            ok, det = True, "%s takes `%s` (whose processor %s resizes %s) out of the parser and registers it as a plain value" % (h.qn.split("::")[-1], k, g.short, v)
+                if not keys:
+                    det = "%s resizes %s but is not a keyword processor seen here" % (g.short, v)
+            ctx.ob(RULE, f.qn, "&%s[..]/%s" % (v, g.short), ok, c.where(), det if ok else "the key is registered with the address of an element of %s, and %s::%s resizes that vector while a header is parsed without the key being registered again: the next such line writes through a dangling pointer" % (v, g.cls.split("::")[-1], g.short))
+            n += 1
+    return n
+
+
+def rule_h_bounded_string_copies(ctx, fns):
+    """No header text is copied into a fixed-size character buffer without a test of its length: every strcpy/strcat/sprintf in the
+    Interfile readers whose source is not a string literal is dominated by a comparison involving the source's size()/strlen with an
+    error() or return on the failing side."""
+    RULE = "C17.h-bounded-string-copies"
+    from engine.cfg import CFG
+
+    n = 0
+    for f in fns:
+        if f.body is None or not f.cfg_raw:
+            continue
+        cps = [c for c in f.calls() if (c.callee or "").split("::")[-1] in ("strcpy", "strcat", "sprintf") and len(c.call_args()) >= 2 and c.call_args()[1].strip().k != "StringLiteral"]
+        if not cps:
+            continue
+        cfg = CFG(f)
+        for c in cps:
+            src = c.call_args()[1].strip()
+            # the object whose characters are copied: X in X.c_str() / X
+            obj = src.c[0].strip() if src.k == "CXXMemberCallExpr" and (src.callee or "").endswith("::c_str") and src.c else src
+            ok_ = False
+            for g in f.walk():
+                if g.k != "IfStmt" or len(g.c) < 2:
+                    continue
+                cnd = g.c[0]
+                uses = any((m.k == "CXXMemberCallExpr" and (m.callee or "").split("::")[-1] in ("size", "length") and m.c and key(m.c[0].strip()) == key(obj)) or (m.is_call() and (m.callee or "").split("::")[-1] == "strlen" and m.call_args() and key(m.call_args()[0].strip()) == key(src)) for m in cnd.walk())
+                exits = any(x.k == "ReturnStmt" for x in g.c[1].walk()) or any(x.is_call() and (x.callee or "").split("::")[-1] == "error" for x in g.c[1].walk())
+                els = [m for m in cnd.walk() if m.i in cfg.pos]
+                if uses and exits and els and c.i in cfg.pos and any(cfg.dominates(e, c) for e in els):
+                    ok_ = True
+            ctx.ob(RULE, f.qn, "%s@%d" % (c.callee.split("::")[-1], c.line), ok_, c.where(), "the length of `%s` is tested (with an exit) before it is copied into the buffer" % key(obj, True) if ok_ else "`%s` comes from the header/caller and is copied with %s into a fixed-size buffer without a test of its length" % (key(obj, True), c.callee.split("::")[-1]))
+            n += 1
+    return n
+
+
+def rule_i_counts_validated(ctx, hfns):
+    """A count read from the header that sizes vectors (`v.resize(count)` in a keyword processor) is range-checked first: the resize is
+    dominated by a comparison of that count with an error() exit - a negative count makes resize throw std::length_error past the
+    library's error reporting and an absurd one allocates without bound."""
+    RULE = "C17.i-counts-validated-before-resize"
+    from engine.cfg import CFG
+
+    n = 0
+    seen = set()
+    for f in hfns:
+        if f.body is None or not f.cfg_raw or f.is_ctor or (f.file, f.line) in seen or not f.short.startswith("read_"):
+            continue
+        rs = [x for x in f.walk() if x.k == "CXXMemberCallExpr" and (x.callee or "").split("::")[-1] == "resize" and x.c and x.c[0].strip().k == "MemberExpr" and x.call_args()]
+        counts = {}
+        for x in rs:
+            a = x.call_args()[0].strip()
+            if a.k == "MemberExpr" and a.c and a.c[0].strip().k == "CXXThisExpr" and re.fullmatch(r"(const )?int", (a.type or "").strip()):
+                counts.setdefault(a.get("n"), []).append(x)
+        if not counts:
+            continue
+        seen.add((f.file, f.line))
+        cfg = CFG(f)
+        for cnt, xs in sorted(counts.items()):
+            ok_ = False
+            for g in f.walk():
+                if g.k != "IfStmt" or len(g.c) < 2:
+                    continue
+                cnd = g.c[0]
+                uses = any(m.k == "BinaryOperator" and m.op in ("<", "<=", ">", ">=") and ("this." + cnt) in (key(m.c[0].strip()), key(m.c[1].strip())) for m in cnd.walk())
+                exits = any(x.is_call() and (x.callee or "").split("::")[-1] == "error" for x in g.c[1].walk()) or any(x.k == "ReturnStmt" for x in g.c[1].walk())
+                els = [m for m in cnd.walk() if m.i in cfg.pos]
+                if uses and exits and els and all(x.i in cfg.pos and any(cfg.dominates(e, x) for e in els) for x in xs):
+                    ok_ = True
+            if not ok_:
+                # the check can sit in a function called first (the base class's processor of the same key)
+                for c in f.calls():
+                    g2 = next((h for h in hfns if h.qn == c.callee and h.body is not None and h is not f), None)
+                    if g2 is None or c.i not in cfg.pos or not all(x.i in cfg.pos and cfg.dominates(c, x) for x in xs):
+                        continue
+                    for g in g2.walk():
+                        if g.k == "IfStmt" and len(g.c) >= 2 and any(m.k == "BinaryOperator" and m.op in ("<", "<=", ">", ">=") and ("this." + cnt) in (key(m.c[0].strip()), key(m.c[1].strip())) for m in g.c[0].walk()) and any(x.is_call() and (x.callee or "").split("::")[-1] == "error" for x in g.c[1].walk()):
+                            ok_ = True
+            ctx.ob(RULE, f.qn, "count:" + cnt, ok_, xs[0].where(), "`%s` is range-checked (with an exit) before %d vector(s) are resized with it" % (cnt, len(xs)) if ok_ else "`%s` comes straight from the header and sizes %d vector(s) without a range check: negative -> std::length_error escapes, huge -> unbounded allocation" % (cnt, len(xs)))
+            n += 1
+    return n
+
+
+def rule_j_index_parsed_strictly(ctx, kfns):
+    """`vectorised keys are stored at the index given`: the text between the brackets must BE an integer.  The function that extracts
+    the index (the one parse_value_in_line assigns current_index from) converts it with a function that reports how much of the text it
+    used (stoi/stol/strtol with an end position, from_chars, a stream extraction that is tested) and reaches error() when the text was not
+    used up - not with atoi/atol, which accept `2abc`, `1.9` and overflow silently."""
+    RULE = "C17.j-index-parsed-strictly"
+    from engine.cfg import CFG
+
+    n = 0
+    for f in kfns:
+        if f.body is None or f.short != "parse_value_in_line":
+            continue
+        for m in f.walk():
+            if m.k == "BinaryOperator" and m.op == "=" and key(m.c[0].strip()) == "this.current_index" and m.c[1].strip().is_call():
+                g = next((h for h in kfns if h.qn == m.c[1].strip().callee and h.body is not None), None)
+                if g is None:
+                    ctx.unrec(f.qn, "function computing current_index not among the analysed functions")
+                    continue
+                lax = [c for c in g.calls() if (c.callee or "").split("::")[-1] in ("atoi", "atol", "atoll", "atof")]
+                strict = [c for c in g.calls() if (c.callee or "").split("::")[-1] in ("stoi", "stol", "stoll", "stoul", "strtol", "strtoul", "from_chars") and len(c.call_args()) >= 2]
+                errs = [c for c in g.calls() if (c.callee or "").split("::")[-1] == "error"]
+                ok = not lax and bool(strict) and bool(errs)
+                if ok and g.cfg_raw:
+                    cfg = CFG(g)
+                    # the error exit depends on the end position reported by the conversion
+                    endvars = {key(c.call_args()[1].strip()).lstrip("(& ").rstrip(")") for c in strict}
+                    ok = any(a.k == "IfStmt" and a.c and any(v and v in key(a.c[0]) for v in endvars) for e in errs for a in e.ancestors())
+                ctx.ob(RULE, g.qn, "conversion", ok, (lax[0] if lax else g).where(), "the index text is converted with a function that reports the characters used, and left-over text ends in error()" if ok else ("the index text is converted with %s, which accepts trailing garbage, fractions and overflow silently: `key[2abc]` is stored at index 2" % lax[0].callee.split("::")[-1] if lax else "no strict conversion of the index text with an error() exit for left-over characters found"))
+                n += 1
+    return n
+
+
 def run(ctx):
     ctx.explanation = (
         "Decides: (a) every key type registrable through the add_key/add_vectorised_key API has a case in parse_value_in_line, in the "
@@ -379,6 +592,16 @@ def run(ctx):
     rule_e(ctx, kfns)
     rule_f_lists_length_checked(ctx, hf)
     ctx.require_count("C17.f-lists-length-checked", 3)
+    hall = uniq([f for u in (us[1], us[3], us[4]) for f in u.functions])
+    recs = [r for u in (us[3], us[4]) for r in u.records]
+    rule_g_element_keys_survive_resizes(ctx, hall, recs)
+    ctx.require_count("C17.g-element-keys-survive-resizes", 4)
+    rule_h_bounded_string_copies(ctx, uniq(us[5].functions))
+    ctx.require_count("C17.h-bounded-string-copies", 1)
+    rule_j_index_parsed_strictly(ctx, uniq(us[6].functions) if len(us) > 6 and us[6] is not None else kfns)
+    ctx.require_count("C17.j-index-parsed-strictly", 1)
+    rule_i_counts_validated(ctx, hall)
+    ctx.require_count("C17.i-counts-validated-before-resize", 8)
     ctx.require_count("C17.a-registrable-types-handled", 5)
     ctx.require_count("C17.b-vectorised-index-validated", 2)
     ctx.require_count("C17.c-per-dataset-vectors", 3)
